@@ -75,3 +75,170 @@ def write_elf(path, segs, ps=4096, machine="x86_64", elfclass=64, be=False, nuls
             for i in range(n):
                 f.write(page_bytes(pfn + i, ps, nuls))
         f.truncate(max(off, f.tell()))
+
+
+# ---------------------------------------------------------------- diskdump / KDUMP
+import zlib
+
+DH_ZLIB, DH_LZO, DH_SNAPPY, DH_ZSTD = 0x1, 0x2, 0x4, 0x20
+
+
+def snappy_literal(data):
+    """valid snappy stream consisting of literals only"""
+    n = len(data)
+    out = bytearray()
+    v = n
+    while True:                       # uncompressed length varint
+        b = v & 0x7f
+        v >>= 7
+        out.append(b | (0x80 if v else 0))
+        if not v:
+            break
+    pos = 0
+    while pos < n:
+        k = min(n - pos, 65536)
+        if k <= 60:
+            out.append((k - 1) << 2)
+        elif k <= 256:
+            out += bytes([60 << 2, k - 1])
+        else:
+            out += bytes([61 << 2, (k - 1) & 0xff, (k - 1) >> 8])
+        out += data[pos:pos + k]
+        pos += k
+    return bytes(out)
+
+
+def zstd_raw(data):
+    """valid zstd frame with one raw block (single-segment, 2-byte content size)"""
+    n = len(data)
+    assert 256 <= n <= 65535 + 256 and n < (1 << 21)
+    fhd = (1 << 6) | (1 << 5)          # FCS field size 2 bytes, single segment
+    hdr = struct.pack("<IB", 0xFD2FB528, fhd) + struct.pack("<H", n - 256)
+    bh = (n << 3) | 1                  # last block, raw
+    return hdr + struct.pack("<I", bh)[:3] + data
+
+
+def compress_page(data, method, level=None):
+    if method == "raw":
+        return data, 0
+    if method == "zlib":
+        return zlib.compress(data), DH_ZLIB
+    if method == "zlib-stored":
+        return zlib.compress(data, 0), DH_ZLIB
+    if method == "snappy":
+        return snappy_literal(data), DH_SNAPPY
+    if method == "zstd":
+        return zstd_raw(data), DH_ZSTD
+    if method == "lzo":
+        return data, DH_LZO             # not decodable: exercises the NOTIMPL exit
+    raise ValueError(method)
+
+
+def write_diskdump(path, pages, ps=4096, max_mapnr=None, ram=None, version=6, machine="x86_64",
+                   split=None, nuls=(), methods=None, vmcoreinfo=None, flattened=None, be=False, bits=64,
+                   phys_base=0, nr_cpus=1):
+    """pages: iterable of pfns stored in the file.  ram: pfns marked as RAM in the first
+    bitmap (default: pages).  split=(start_pfn, end_pfn): this file carries descriptors for
+    that window only.  methods: dict pfn -> compression method (default raw).
+    flattened: None | dict(chunk=<bytes per record>, order='fwd'|'rev'|'shuffle', rng=random)"""
+    E = ">" if be else "<"
+    pages = sorted(set(pages))
+    ram = sorted(set(ram if ram is not None else pages) | set(pages))
+    if max_mapnr is None:
+        max_mapnr = (max(ram) + 1) if ram else 1
+    bmp_bytes = (max_mapnr + 7) // 8
+    bmp_blocks1 = max(1, (bmp_bytes + ps - 1) // ps)
+    bitmap_blocks = 2 * bmp_blocks1
+    b1 = bytearray(bmp_blocks1 * ps)
+    b2 = bytearray(bmp_blocks1 * ps)
+    for p in ram:
+        if p < max_mapnr:
+            b1[p >> 3] |= 1 << (p & 7)
+    for p in pages:
+        b2[p >> 3] |= 1 << (p & 7)
+    sub_hdr_size = 1
+    uts = [b"Linux", b"verif", b"5.4.0-verif", b"#1 SMP", machine.encode(), b"(none)"]
+    hdr = b"KDUMP   " + struct.pack(E + "i", version) + b"".join(u.ljust(65, b"\0") for u in uts)
+    if bits == 64:
+        hdr += b"\0" * 6 + struct.pack(E + "QQ", 0, 0)
+    else:
+        hdr += b"\0" * 2 + struct.pack(E + "II", 0, 0)
+    hdr += struct.pack(E + "IiiIIIIIIi", 0, ps, sub_hdr_size, bitmap_blocks, max_mapnr & 0xffffffff,
+                       len(ram), 0, 0, 0, nr_cpus)
+    pdoff = (1 + sub_hdr_size + bitmap_blocks) * ps
+    if split:
+        spfn, epfn = split
+        mine = [p for p in pages if spfn <= p < epfn]
+    else:
+        spfn, epfn = 0, 0
+        mine = pages
+    dataoff = pdoff + 24 * len(mine)
+    dataoff = (dataoff + ps - 1) // ps * ps
+    vmci_off = vmci_size = 0
+    blobs = b""
+    if vmcoreinfo:
+        vmci_off = (1 + sub_hdr_size) * ps - 0      # placed right after data, fixed below
+    descs = bytearray()
+    data = bytearray()
+    for p in mine:
+        raw = page_bytes(p, ps, nuls)
+        c, flags = compress_page(raw, (methods or {}).get(p, "raw"))
+        descs += struct.pack(E + "QIIQ", dataoff + len(data), len(c), flags, 0)
+        data += c
+    end = dataoff + len(data)
+    if vmcoreinfo:
+        vmci_off, vmci_size = end, len(vmcoreinfo)
+        blobs = vmcoreinfo
+    if bits == 64:
+        sub = struct.pack(E + "QiiQQQQQQQQQQQ", phys_base, 0, 1 if split else 0,
+                          spfn if version < 6 else 0, epfn if version < 6 else 0,
+                          vmci_off, vmci_size, 0, 0, 0, 0, spfn, epfn, max_mapnr)
+    else:
+        sub = struct.pack(E + "IiiIIQIQIQIQQQ", phys_base, 0, 1 if split else 0,
+                          spfn if version < 6 else 0, epfn if version < 6 else 0,
+                          vmci_off, vmci_size, 0, 0, 0, 0, spfn, epfn, max_mapnr)
+    img = bytearray(end + len(blobs))
+    img[0:len(hdr)] = hdr
+    img[ps:ps + len(sub)] = sub
+    img[(1 + sub_hdr_size) * ps:(1 + sub_hdr_size) * ps + len(b1)] = b1
+    img[(1 + sub_hdr_size + bmp_blocks1) * ps:(1 + sub_hdr_size + bmp_blocks1) * ps + len(b2)] = b2
+    img[pdoff:pdoff + len(descs)] = descs
+    img[dataoff:dataoff + len(data)] = data
+    img[end:] = blobs
+    if flattened:
+        write_flattened(path, bytes(img), **flattened)
+    else:
+        with open(path, "wb") as f:
+            f.write(img)
+    return dict(pdoff=pdoff, dataoff=dataoff, size=len(img))
+
+
+def write_flattened(path, img, chunk=4096, order="fwd", rng=None, holes=(), rewrites=0):
+    """makedumpfile flattened format: 4096-byte header, records (offset, size, data), END."""
+    recs = []
+    pos = 0
+    while pos < len(img):
+        k = chunk if not rng else rng.choice([chunk, max(16, chunk // 3), chunk * 2 + 5, 1 + rng.randrange(chunk)])
+        k = min(k, len(img) - pos)
+        if not any(lo <= pos < hi for lo, hi in holes):
+            recs.append((pos, img[pos:pos + k]))
+        pos += k
+    if order == "rev":
+        recs.reverse()
+    elif order == "shuffle" and rng:
+        rng.shuffle(recs)
+    # overlapping rewrites: an early record with stale bytes that a later record overwrites
+    for _ in range(rewrites):
+        if rng and recs:
+            i = rng.randrange(len(recs))
+            off, d = recs[i]
+            recs.insert(rng.randrange(i + 1), (off, bytes((b ^ 0x5a) for b in d)))
+    with open(path, "wb") as f:
+        f.write((b"makedumpfile".ljust(16, b"\0") + struct.pack(">qq", 1, 1)).ljust(4096, b"\0"))
+        for off, d in recs:
+            f.write(struct.pack(">qq", off, len(d)) + d)
+        f.write(struct.pack(">qq", -1, 0))
+
+
+def flatten_file(src, dst, **kw):
+    write_flattened(dst, open(src, "rb").read(), **kw)
